@@ -240,6 +240,28 @@ def rule_iter(ctx, rep):
         dtable.compare(rep, "C10.iter", name, f, exp, "classes of (node->next, tail->p, re-loaded node->next)")
 
 
+def rule_macro(ctx, rep):
+    """the for_each iteration macros (witness/wfiter.c): start at first(), body iff non-NULL, step = next(cursor); _safe variants
+    fetch the successor before the body and never touch the cursor afterwards"""
+    from .. import itermacro
+    m = ctx.mod("w_wfiter", "flat")
+    table = [
+        ("w_iter___cds_wfcq_for_each_blocking", "__cds_wfcq_first_blocking", "__cds_wfcq_next_blocking", 2, False, None),
+        ("w_iter___cds_wfcq_for_each_blocking_safe", "__cds_wfcq_first_blocking", "__cds_wfcq_next_blocking", 2, True, None),
+    ]
+    for name, first, nxt, nargs, safe, lfs in table:
+        f = m.fn(name)
+        pat.require(f is not None, "witness %s vanished" % name)
+        itermacro.check(rep, "C10.macro", f, first, nxt, nargs, safe, lfs)
+    # inventory: every for_each macro of the public headers has a witness
+    import re
+    hdrs = {"C10.macro": ["include/urcu/wfcqueue.h"], "C11.macro": ["include/urcu/wfstack.h", "include/urcu/lfstack.h"]}["C10.macro"]
+    have = set(n.replace("w_iter_", "") for n, *_ in table)
+    for h in hdrs:
+        for mac in re.findall(r"^#define\s+(\w*for_each\w*)\(", ctx.src(h), re.M):
+            rep.check(mac in have, "C10.macro", "inventory." + mac, "iteration macro has a witness", "iteration macro %s of %s has no witness: not analysed" % (mac, h), [h])
+
+
 RULES = [
     ("C10.nodeinit", rule_nodeinit),
     ("C10.append", rule_append),
@@ -249,5 +271,6 @@ RULES = [
     ("C10.locked", rule_locked),
     ("C10.legacy", rule_legacy),
     ("C10.iter", rule_iter),
+    ("C10.macro", rule_macro),
 ]
 FLOORS = {}
